@@ -437,6 +437,7 @@ type shardResult struct {
 	Violations []kit.V `json:"violations"`
 	Sample     []int   `json:"sample"`
 	ReplayOK   bool    `json:"replay_ok"`
+	ReplayDiff string  `json:"replay_diff,omitempty"`
 }
 
 func runOnce(root string, sc scenario, choices []int, trace bool) (*instance, *sched.Exec) {
@@ -473,9 +474,17 @@ func explore(r *kit.Run, root string, sc scenario, prefix []int) shardResult {
 		return true
 	}
 	if prefix == nil {
-		_, e1 := runOnce(root, sc, nil, true)
-		_, e2 := runOnce(root, sc, e1.Choices, true)
-		res.ReplayOK = e1.NoYield != "" || strings.Join(e1.Trace, "|") == strings.Join(e2.Trace, "|")
+		// the same schedule twice must give the same trace; a mismatch is tried again
+		// (up to three times) before the scenario is called nondeterministic, and the
+		// two traces are reported
+		for attempt := 0; attempt < 3 && !res.ReplayOK; attempt++ {
+			_, e1 := runOnce(root, sc, nil, true)
+			_, e2 := runOnce(root, sc, e1.Choices, true)
+			res.ReplayOK = e1.NoYield != "" || strings.Join(e1.Trace, "|") == strings.Join(e2.Trace, "|")
+			if !res.ReplayOK {
+				res.ReplayDiff = fmt.Sprintf("attempt %d\nfirst run:  %s\nsecond run: %s", attempt+1, strings.Join(e1.Trace, " | "), strings.Join(e2.Trace, " | "))
+			}
+		}
 		x.Run()
 	} else {
 		res.ReplayOK = true
@@ -573,7 +582,7 @@ func main() {
 			kit.Harness("shard result: %v", err)
 		}
 		if !sr.ReplayOK {
-			kit.Harness("nondeterministic replay in scenario %s", scs[j])
+			kit.Harness("nondeterministic replay in scenario %s\n%s", scs[j], sr.ReplayDiff)
 		}
 		per[j] = &sr
 		tot.Executions += sr.Executions
